@@ -1036,9 +1036,21 @@ Theorem spec_obs_sound c i sv :
 Proof.
   intros Hs Hne Hsch. unfold spec_obs in Hs.
   set (root := c_tree c) in *. set (r := c_r c) in *. set (a := c_a c) in *.
-  destruct i as [|[|[|[|[|[|[|[|[|[|[|[|[|i]]]]]]]]]]]]];
-    cbn [nth_error] in Hs; try (destruct i; discriminate);
-    injection Hs as <-; unfold meets; cbn [Nat.eqb nth_error model_obs];
+  destruct i as [|[|[|[|[|[|[|[|[|[|[|[|[|i]]]]]]]]]]]]]; cbn [nth_error app] in Hs.
+  14: { (* the URLs of further resources asked of the same request *)
+    unfold meets. cbn [Nat.eqb]. unfold model_obs. cbn [nth_error app].
+    destruct (nth_error (c_more c) i) as [p|] eqn:Ep.
+    2:{ rewrite nth_error_map, Ep in Hs. discriminate. }
+    rewrite nth_error_map, Ep in Hs. cbn [option_map] in Hs. injection Hs as <-.
+    rewrite nth_error_map, Ep. cbn [option_map]. eexists. split; [reflexivity|].
+    fold root. destruct (good_resource root p) as [names|] eqn:Hg; [|congruence].
+    destruct (header_segments (c_vroot c)) as [vt|] eqn:Hh; [|congruence].
+    destruct (c_app c) as [host|] eqn:Ea; [|congruence].
+    destruct (decode_path_info (c_script c)) as [d| |] eqn:Hd; try congruence.
+    destruct (resource_url_shape root p names [] (c_vroot c) vt (c_script c) d host Hg Hh eq_refl Hd) as (_ & H1 & _).
+    apply (f_equal (put_out put_text)) in H1. etransitivity; [exact H1|].
+    cbn [put_out map join]. rewrite app_nil_r, <- app_assoc. reflexivity. }
+  all: injection Hs as <-; unfold meets; cbn [Nat.eqb nth_error model_obs app];
     fold root r a; try congruence.
   - (* 2 *) destruct (good_resource root r) as [names|] eqn:Hg; [|congruence].
     eexists. split; [reflexivity|]. rewrite (find_path_tuple root r a names Hg). reflexivity.
